@@ -1,6 +1,7 @@
 package main
 
 import (
+	"encoding/json"
 	"flag"
 	"fmt"
 	"os"
@@ -115,6 +116,26 @@ func main() {
 		}
 	}()
 	cov := map[string]interface{}{"configs": cfgInfo}
+	if st := os.Getenv("SELFTEST_OUT"); st != "" {
+		if b, err := os.ReadFile(st); err == nil {
+			var res []map[string]interface{}
+			if json.Unmarshal(b, &res) == nil {
+				nOK, nSkip := 0, 0
+				for _, x := range res {
+					switch x["status"] {
+					case "ok":
+						nOK++
+					case "skipped":
+						nSkip++
+					}
+				}
+				cov["checker_selftest"] = map[string]interface{}{
+					"what":     "each stored mutant (one broken rule instance, compiling) applied to a scratch copy of the current tree must make exactly its rule fire; each benign variant must stay silent",
+					"variants": len(res), "ok": nOK, "skipped_anchor_text_gone": nSkip, "results": res,
+				}
+			}
+		}
+	}
 	exit = r.finish(d.Meta, *tier, seed, time.Since(start).Seconds(), cov, known, *evid)
 	os.Exit(exit)
 }
